@@ -7,7 +7,7 @@ import Rtcp.Spec.Padding
 import Rtcp.Spec.Rules
 import Rtcp.Spec.Decode
 import Rtcp.Spec.Framing
-import Rtcp.Impl.Setters
+import Rtcp.Impl.Calls
 
 namespace Driver
 open Rtcp Rtcp.Impl
@@ -34,153 +34,147 @@ def u16 (n : Nat) : UInt16 := n.toUInt16
 def u32 (n : Nat) : UInt32 := n.toUInt32
 def u64 (n : Nat) : UInt64 := n.toUInt64
 
+/-- parse a call list into reified calls (Rtcp/Impl/Calls.lean); `(probe)` is an observation of the
+    harness only and no call on the model -/
+def parseCalls {κ : Type} (f : Sexp → Option κ) (calls : List Sexp) : Option (List κ) :=
+  (calls.filter (fun c => match c with | .list [.atom "probe"] => false | _ => true)).mapM f
+
+def parseRbCall : Sexp → Option RbCall
+  | .list [.atom "fl", n] => do pure (RbCall.fl (u8 (← n.toNat?)))
+  | .list [.atom "cl", n] => do pure (RbCall.cl (u32 (← n.toNat?)))
+  | .list [.atom "esn", n] => do pure (RbCall.esn (u32 (← n.toNat?)))
+  | .list [.atom "jit", n] => do pure (RbCall.jit (u32 (← n.toNat?)))
+  | .list [.atom "lsr", n] => do pure (RbCall.lsr (u32 (← n.toNat?)))
+  | .list [.atom "dlsr", n] => do pure (RbCall.dlsr (u32 (← n.toNat?)))
+  | _ => none
+
 def evalRb : Sexp → Option ReportBlockBuilder
   | .list (.atom "rb" :: ssrc :: calls) => do
     let s ← ssrc.toNat?
-    calls.foldlM (fun (b : ReportBlockBuilder) c =>
-      match c with
-      | .list [.atom "fl", n] => do pure (b.setFractionLost (u8 (← n.toNat?)))
-      | .list [.atom "cl", n] => do pure (b.setCumulativeLost (u32 (← n.toNat?)))
-      | .list [.atom "esn", n] => do pure (b.setExtendedSequenceNumber (u32 (← n.toNat?)))
-      | .list [.atom "jit", n] => do pure (b.setInterarrivalJitter (u32 (← n.toNat?)))
-      | .list [.atom "lsr", n] => do pure (b.setLastSenderReportTimestamp (u32 (← n.toNat?)))
-      | .list [.atom "dlsr", n] => do pure (b.setDelaySinceLastSenderReportTimestamp (u32 (← n.toNat?)))
-      | _ => none) (ReportBlockBuilder.new (u32 s))
+    pure ((ReportBlockBuilder.new (u32 s)).run (← calls.mapM parseRbCall))
+  | _ => none
+
+def parseItemCall : Sexp → Option ItemCall
+  | .list [.atom "prefix", p] => do pure (ItemCall.prefix_ (← p.toBytes?))
+  | .list [.atom "into_owned"] => pure ItemCall.intoOwned
   | _ => none
 
 def evalItem : Sexp → Option SdesItemBuilder
   | .list (.atom "item" :: ty :: value :: calls) => do
     let t ← ty.toNat?
     let v ← value.toBytes?
-    calls.foldlM (fun (b : SdesItemBuilder) c =>
-      match c with
-      | .list [.atom "prefix", p] => do pure (b.setPrefix (← p.toBytes?))
-      | .list [.atom "into_owned"] => pure b.intoOwned
-      | _ => none) (SdesItemBuilder.new (u8 t) v)
+    pure ((SdesItemBuilder.new (u8 t) v).run (← calls.mapM parseItemCall))
+  | _ => none
+
+def parseChunkCall : Sexp → Option ChunkCall
+  | .list [.atom "add_item", it] => do pure (ChunkCall.addItem (← evalItem it))
+  | .list [.atom "add_item_owned", it] => do pure (ChunkCall.addItemOwned (← evalItem it))
   | _ => none
 
 def evalChunk : Sexp → Option SdesChunkBuilder
   | .list (.atom "chunk" :: ssrc :: calls) => do
     let s ← ssrc.toNat?
-    calls.foldlM (fun (b : SdesChunkBuilder) c =>
-      match c with
-      | .list [.atom "add_item", it] => do pure (b.addItem (← evalItem it))
-      | .list [.atom "add_item_owned", it] => do pure (b.addItemOwned (← evalItem it))
-      | _ => none) (SdesChunkBuilder.new (u32 s))
+    pure ((SdesChunkBuilder.new (u32 s)).run (← calls.mapM parseChunkCall))
+  | _ => none
+
+def parseRpsiCall : Sexp → Option RpsiCall
+  | .list [.atom "payload_type", n] => do pure (RpsiCall.payloadType (u8 (← n.toNat?)))
+  | .list [.atom "native_data", d, k] => do pure (RpsiCall.nativeData (← d.toBytes?) (u8 (← k.toNat?)))
+  | .list [.atom "native_data_vec", d, k] => do pure (RpsiCall.nativeData (← d.toBytes?) (u8 (← k.toNat?)))
+  | .list [.atom "native_data_owned", d, k] => do pure (RpsiCall.nativeDataOwned (← d.toBytes?) (u8 (← k.toNat?)))
   | _ => none
 
 def evalFci : Sexp → Option FciB
   | .list (.atom "nack" :: calls) => do
-    let b ← calls.foldlM (fun (b : NackBuilder) c =>
-      match c with
-      | .list [.atom "probe"] => pure b
-      | .list [.atom "add", n] => do pure (b.addRtpSequence (u16 (← n.toNat?)))
-      | _ => none) {}
-    pure (.nack b)
+    let ss ← parseCalls (fun c => match c with
+      | .list [.atom "add", n] => do pure (u16 (← n.toNat?))
+      | _ => none) calls
+    pure (.nack (NackBuilder.run {} ss))
   | .list (.atom "fir" :: calls) => do
-    let b ← calls.foldlM (fun (b : FirBuilder) c =>
-      match c with
-      | .list [.atom "probe"] => pure b
-      | .list [.atom "add", s, q] => do pure (b.addSsrc (u32 (← s.toNat?)) (u8 (← q.toNat?)))
-      | _ => none) {}
-    pure (.fir b)
+    let es ← parseCalls (fun c => match c with
+      | .list [.atom "add", s, q] => do pure (u32 (← s.toNat?), u8 (← q.toNat?))
+      | _ => none) calls
+    pure (.fir (FirBuilder.run {} es))
   | .list (.atom "sli" :: calls) => do
-    -- same result as folding `addLostMacroblock` (append at the end), built without the quadratic appends
-    let rev ← calls.foldlM (fun (acc : List MacroBlockEntry) c =>
-      match c with
-      | .list [.atom "probe"] => pure acc
-      | .list [.atom "add", f, n, p] => do
-        pure (⟨u16 (← f.toNat?), u16 (← n.toNat?), u8 (← p.toNat?)⟩ :: acc)
-      | _ => none) []
-    pure (.sli ⟨rev.reverse⟩)
+    let es ← parseCalls (fun c => match c with
+      | .list [.atom "add", f, n, p] => do pure (u16 (← f.toNat?), u16 (← n.toNat?), u8 (← p.toNat?))
+      | _ => none) calls
+    -- `SliBuilder.run {} es` without its quadratic appends (Props.sli_run: the two are equal)
+    pure (.sli ⟨es.map (fun e => ⟨e.1, e.2.1, e.2.2⟩)⟩)
   | .list (.atom "rpsi" :: calls) => do
-    let b ← calls.foldlM (fun (b : RpsiBuilder) c =>
-      match c with
-      | .list [.atom "probe"] => pure b
-      | .list [.atom "payload_type", n] => do pure (b.setPayloadType (u8 (← n.toNat?)))
-      | .list [.atom "native_data", d, k] => do pure (b.nativeData (← d.toBytes?) (u8 (← k.toNat?)))
-      | .list [.atom "native_data_vec", d, k] => do pure (b.nativeData (← d.toBytes?) (u8 (← k.toNat?)))
-      | .list [.atom "native_data_owned", d, k] => do pure (b.nativeDataOwned (← d.toBytes?) (u8 (← k.toNat?)))
-      | _ => none) {}
-    pure (.rpsi b)
+    pure (.rpsi (RpsiBuilder.run {} (← parseCalls parseRpsiCall calls)))
   | .list [.atom "pli"] => some .pli
+  | _ => none
+
+def parseFbCall : Sexp → Option FbCall
+  | .list [.atom "padding", n] => do pure (FbCall.padding (u8 (← n.toNat?)))
+  | .list [.atom "sender_ssrc", n] => do pure (FbCall.senderSsrc (u32 (← n.toNat?)))
+  | .list [.atom "media_ssrc", n] => do pure (FbCall.mediaSsrc (u32 (← n.toNat?)))
   | _ => none
 
 def evalFb (k : FbKind) (mode : String) (fci : Sexp) (calls : List Sexp) : Option Cfg :=
   if mode == "borrowed" || mode == "owned" then do
     let f ← evalFci fci
-    let b ← calls.foldlM (fun (b : FbBuilder) c =>
-      match c with
-      | .list [.atom "probe"] => pure b
-      | .list [.atom "padding", n] => do pure (b.setPadding (u8 (← n.toNat?)))
-      | .list [.atom "sender_ssrc", n] => do pure (b.setSenderSsrc (u32 (← n.toNat?)))
-      | .list [.atom "media_ssrc", n] => do pure (b.setMediaSsrc (u32 (← n.toNat?)))
-      | _ => none) (FbBuilder.new k f.toFci)
+    let b := (FbBuilder.new k f.toFci).run (← parseCalls parseFbCall calls)
     pure (.fb k f b.padding b.senderSsrc b.mediaSsrc)
   else none
+
+def parseAppCall : Sexp → Option AppCall
+  | .list [.atom "padding", n] => do pure (AppCall.padding (u8 (← n.toNat?)))
+  | .list [.atom "subtype", n] => do pure (AppCall.subtype (u8 (← n.toNat?)))
+  | .list [.atom "data", d] => do pure (AppCall.data (← d.toBytes?))
+  | _ => none
+
+def parseByeCall : Sexp → Option ByeCall
+  | .list [.atom "padding", n] => do pure (ByeCall.padding (u8 (← n.toNat?)))
+  | .list [.atom "add_source", n] => do pure (ByeCall.addSource (u32 (← n.toNat?)))
+  | .list [.atom "reason", r] => do pure (ByeCall.reason (← r.toBytes?))
+  | .list [.atom "reason_owned", r] => do pure (ByeCall.reasonOwned (← r.toBytes?))
+  | _ => none
+
+def parseRrCall : Sexp → Option RrCall
+  | .list [.atom "padding", n] => do pure (RrCall.padding (u8 (← n.toNat?)))
+  | .list [.atom "add_report_block", rb] => do pure (RrCall.addReportBlock (← evalRb rb))
+  | _ => none
+
+def parseSrCall : Sexp → Option SrCall
+  | .list [.atom "padding", n] => do pure (SrCall.padding (u8 (← n.toNat?)))
+  | .list [.atom "ntp", n] => do pure (SrCall.ntp (u64 (← n.toNat?)))
+  | .list [.atom "rtp", n] => do pure (SrCall.rtp (u32 (← n.toNat?)))
+  | .list [.atom "packet_count", n] => do pure (SrCall.packetCount (u32 (← n.toNat?)))
+  | .list [.atom "octet_count", n] => do pure (SrCall.octetCount (u32 (← n.toNat?)))
+  | .list [.atom "add_report_block", rb] => do pure (SrCall.addReportBlock (← evalRb rb))
+  | _ => none
+
+def parseSdesCall : Sexp → Option SdesCall
+  | .list [.atom "padding", n] => do pure (SdesCall.padding (u8 (← n.toNat?)))
+  | .list [.atom "add_chunk", ch] => do pure (SdesCall.addChunk (← evalChunk ch))
+  | _ => none
+
+def parseUnknownCall : Sexp → Option UnknownCall
+  | .list [.atom "padding", n] => do pure (UnknownCall.padding (u8 (← n.toNat?)))
+  | .list [.atom "count", n] => do pure (UnknownCall.count (u8 (← n.toNat?)))
+  | _ => none
 
 partial def evalBuilder : Sexp → Option Cfg
   | .list (.atom "app" :: ssrc :: name :: calls) => do
     let s ← ssrc.toNat?
     let n ← name.toBytes?
-    let b ← calls.foldlM (fun (b : AppBuilder) c =>
-      match c with
-      | .list [.atom "probe"] => pure b
-      | .list [.atom "padding", n] => do pure (b.setPadding (u8 (← n.toNat?)))
-      | .list [.atom "subtype", n] => do pure (b.setSubtype (u8 (← n.toNat?)))
-      | .list [.atom "data", d] => do pure (b.setData (← d.toBytes?))
-      | _ => none) (AppBuilder.new (u32 s) n)
-    pure (.app b)
+    pure (.app ((AppBuilder.new (u32 s) n).run (← parseCalls parseAppCall calls)))
   | .list (.atom "bye" :: calls) => do
-    let b ← calls.foldlM (fun (b : ByeBuilder) c =>
-      match c with
-      | .list [.atom "probe"] => pure b
-      | .list [.atom "padding", n] => do pure (b.setPadding (u8 (← n.toNat?)))
-      | .list [.atom "add_source", n] => do pure (b.addSource (u32 (← n.toNat?)))
-      | .list [.atom "reason", r] => do pure (b.setReason (← r.toBytes?))
-      | .list [.atom "reason_owned", r] => do pure (b.reasonOwned (← r.toBytes?))
-      | _ => none) ByeBuilder.new
-    pure (.bye b)
+    pure (.bye (ByeBuilder.new.run (← parseCalls parseByeCall calls)))
   | .list (.atom "rr" :: ssrc :: calls) => do
     let s ← ssrc.toNat?
-    let b ← calls.foldlM (fun (b : RrBuilder) c =>
-      match c with
-      | .list [.atom "probe"] => pure b
-      | .list [.atom "padding", n] => do pure (b.setPadding (u8 (← n.toNat?)))
-      | .list [.atom "add_report_block", rb] => do pure (b.addReportBlock (← evalRb rb))
-      | _ => none) (RrBuilder.new (u32 s))
-    pure (.rr b)
+    pure (.rr ((RrBuilder.new (u32 s)).run (← parseCalls parseRrCall calls)))
   | .list (.atom "sr" :: ssrc :: calls) => do
     let s ← ssrc.toNat?
-    let b ← calls.foldlM (fun (b : SrBuilder) c =>
-      match c with
-      | .list [.atom "probe"] => pure b
-      | .list [.atom "padding", n] => do pure (b.setPadding (u8 (← n.toNat?)))
-      | .list [.atom "ntp", n] => do pure (b.setNtp (u64 (← n.toNat?)))
-      | .list [.atom "rtp", n] => do pure (b.setRtp (u32 (← n.toNat?)))
-      | .list [.atom "packet_count", n] => do pure (b.setPacketCount (u32 (← n.toNat?)))
-      | .list [.atom "octet_count", n] => do pure (b.setOctetCount (u32 (← n.toNat?)))
-      | .list [.atom "add_report_block", rb] => do pure (b.addReportBlock (← evalRb rb))
-      | _ => none) (SrBuilder.new (u32 s))
-    pure (.sr b)
+    pure (.sr ((SrBuilder.new (u32 s)).run (← parseCalls parseSrCall calls)))
   | .list (.atom "sdes" :: calls) => do
-    let b ← calls.foldlM (fun (b : SdesBuilder) c =>
-      match c with
-      | .list [.atom "probe"] => pure b
-      | .list [.atom "padding", n] => do pure (b.setPadding (u8 (← n.toNat?)))
-      | .list [.atom "add_chunk", ch] => do pure (b.addChunk (← evalChunk ch))
-      | _ => none) SdesBuilder.new
-    pure (.sdes b)
+    pure (.sdes (SdesBuilder.new.run (← parseCalls parseSdesCall calls)))
   | .list (.atom "unknown" :: ty :: data :: calls) => do
     let t ← ty.toNat?
     let d ← data.toBytes?
-    let b ← calls.foldlM (fun (b : UnknownBuilder) c =>
-      match c with
-      | .list [.atom "probe"] => pure b
-      | .list [.atom "padding", n] => do pure (b.setPadding (u8 (← n.toNat?)))
-      | .list [.atom "count", n] => do pure (b.setCount (u8 (← n.toNat?)))
-      | _ => none) (UnknownBuilder.new (u8 t) d)
-    pure (.unknown b)
+    pure (.unknown ((UnknownBuilder.new (u8 t) d).run (← parseCalls parseUnknownCall calls)))
   | .list (.atom "tfb" :: .atom mode :: fci :: calls) => evalFb FbKind.transport mode fci calls
   | .list (.atom "pfb" :: .atom mode :: fci :: calls) => evalFb FbKind.payload mode fci calls
   | .list [.atom "pb", inner] => do
